@@ -400,11 +400,125 @@ fn scenarios(tier: Tier) -> Vec<Scenario> {
     v
 }
 
+/// C18 clause (ii): `nfs_voucher::get_base_time_unlocked` (and the non-blocking
+/// `observe_file_time`) while another thread is suspended inside the module's own
+/// `BASE_TIME` update, holding the writer lock.
+fn nfs_scenario(k: usize, observer_is_observe: bool, dir: &std::path::Path) -> Result<Vec<Op>, String> {
+    use vouched_time::nfs_voucher;
+    let path = dir.join("trusted");
+    let ctl = Controller::new(3);
+    ctl.install();
+    let mut handles: Handles = Vec::new();
+    let p2 = path.clone();
+    handles.push(spawn_role(&ctl, ROLE_FROZEN0, move || {
+        let _ = nfs_voucher::add_trusted_path(p2);
+    }));
+    ctl.grant(ROLE_FROZEN0, k);
+    let stop = ctl.settle(ROLE_FROZEN0, 1000);
+    let result = (|| {
+        if stop == Stop::Timeout {
+            return Err("harness: the suspended add_trusted_path did not settle".to_string());
+        }
+        let holding = ctl.holder() == Some(ROLE_FROZEN0);
+        let p3 = path.clone();
+        let res: Arc<std::sync::Mutex<Option<bool>>> = Arc::new(std::sync::Mutex::new(None));
+        let res2 = res.clone();
+        handles.push(spawn_role(&ctl, ROLE_OBSERVER, move || {
+            let ok = if observer_is_observe {
+                // a file on the same device; try_update inside must not wait
+                match std::fs::File::open(&p3) {
+                    Ok(f) => nfs_voucher::observe_file_time(&f).is_ok(),
+                    Err(_) => true, // the suspended call has not created the file yet
+                }
+            } else {
+                match nfs_voucher::get_base_time_unlocked(time::OffsetDateTime::now_utc()) {
+                    Ok((b, v)) => CHECK.check(b, v),
+                    Err(_) => false,
+                }
+            };
+            *res2.lock().unwrap() = Some(ok);
+        }));
+        ctl.grant(ROLE_OBSERVER, UNLIMITED);
+        let stop = ctl.settle(ROLE_OBSERVER, STEP_CAP);
+        let events = ctl.events(ROLE_OBSERVER);
+        let name = if observer_is_observe { "observe_file_time" } else { "get_base_time_unlocked" };
+        match stop {
+            Stop::Done => {}
+            Stop::ParkedInLock => return Err(format!("{} WAITS for the base-time writer lock held by a suspended add_trusted_path (its steps: {:?})", name, events)),
+            Stop::StepCap => return Err(format!("{} does not complete within {} steps while a writer is suspended", name, STEP_CAP)),
+            other => return Err(format!("harness: {} stopped at {:?}", name, other)),
+        }
+        let locks = events.iter().filter(|e| matches!(e, Op::Lock)).count();
+        let trylocks = events.iter().filter(|e| matches!(e, Op::TryLock)).count();
+        let loads = events.iter().filter(|e| matches!(e, Op::Load(_))).count();
+        if observer_is_observe {
+            if locks > 0 && holding {
+                return Err(format!("observe_file_time called a blocking lock() while a suspended writer holds the lock: {:?}", events));
+            }
+        } else {
+            if locks + trylocks > 0 {
+                return Err(format!("get_base_time_unlocked performed lock operations: {:?}", events));
+            }
+            if loads > 4 {
+                return Err(format!("get_base_time_unlocked performed {} loads although no write completed during its read", loads));
+            }
+        }
+        if *res.lock().unwrap() != Some(true) {
+            return Err(format!("{} failed or returned a pair that does not check", name));
+        }
+        Ok(events)
+    })();
+    ctl.release_all();
+    for h in handles {
+        let _ = h.join();
+    }
+    Controller::uninstall();
+    result
+}
+
+fn nfs_clause(ctx: &Ctx, rep: &mut Report) {
+    if !ctx.owns(1) {
+        return;
+    }
+    let dir = std::path::PathBuf::from(format!("/tmp/woodpile-c18-{}", std::process::id()));
+    let _ = std::fs::remove_dir_all(&dir);
+    if std::fs::create_dir_all(&dir).is_err() {
+        machinery_failure("cannot create the C18 scratch directory");
+    }
+    for round in 0..2 {
+        for k in 0..=12usize {
+            for observe in [false, true] {
+                rep.evaluations += 1;
+                let r = match catch(|| nfs_scenario(k, observe, &dir)) {
+                    Ok(r) => r,
+                    Err(p) => {
+                        Controller::uninstall();
+                        Err(format!("panic: {}", p))
+                    }
+                };
+                match r {
+                    Ok(events) => {
+                        rep.transitions += events.len() as u64;
+                        rep.count("nfs_unlocked_scenarios", 1);
+                        rep.state(hash_of(&("nfs", round, k, observe)));
+                    }
+                    Err(e) => {
+                        rep.violation(Violation { key: format!("C18:nfs:k={}:observe={}", k, observe), summary: format!("nfs_voucher with add_trusted_path suspended after {} steps: {}", k, e), replay_text: format!("nfs: k={} observe={}\nobserved: {}\n", k, observe, e) });
+                    }
+                }
+            }
+        }
+    }
+    let _ = std::fs::remove_dir_all(&dir);
+    rep.note("clause (ii): nfs_voucher::get_base_time_unlocked and observe_file_time run alone while a thread is suspended after each of the first 13 steps of add_trusted_path's update of the module's BASE_TIME (holding its writer lock for steps 2..): no lock operation / no waiting, at most 4 loads, a checked pair".to_string());
+}
+
 fn run(ctx: &Ctx) -> Report {
     let mut rep = Report::new();
     if ctx.prop != "C18" {
         machinery_failure("abt_freeze serves C18");
     }
+    nfs_clause(ctx, &mut rep);
     let all = scenarios(ctx.tier);
     for (u, sc) in all.iter().enumerate() {
         if !ctx.owns(u) {
@@ -439,6 +553,18 @@ fn run(ctx: &Ctx) -> Report {
 }
 
 fn replay(_ctx: &Ctx, text: &str) -> Result<String, String> {
+    if let Some(n) = field(text, "nfs") {
+        let k: usize = n.split("k=").nth(1).and_then(|x| x.split(' ').next()).and_then(|x| x.parse().ok()).unwrap_or(0);
+        let observe = n.contains("observe=true");
+        let dir = std::path::PathBuf::from(format!("/tmp/woodpile-c18-{}", std::process::id()));
+        let _ = std::fs::create_dir_all(&dir);
+        let r = nfs_scenario(k, observe, &dir);
+        let _ = std::fs::remove_dir_all(&dir);
+        return match r {
+            Err(e) => Ok(e),
+            Ok(ev) => Err(format!("completed alone: {:?}", ev)),
+        };
+    }
     let Some(sc) = field(text, "scenario").and_then(Scenario::parse) else {
         machinery_failure("cannot parse scenario");
     };
